@@ -1,7 +1,9 @@
 """Fixture class hierarchy and callables for the value and type grammars (importable by name)."""
 import collections
 import collections.abc
-from functools import partial  # noqa: F401 - callable objects that are not functions (value grammar)
+import functools
+import typing
+from functools import partial, partialmethod  # noqa: F401 - callable objects that are not functions (value grammar)
 
 
 class A:
@@ -185,6 +187,25 @@ lam = lambda x: x  # noqa: E731
 
 def zero():
     return 0
+
+
+class Movie(typing.TypedDict, total=False):
+    """an importable typing.TypedDict class of a user module: to the tracer a named class like any other"""
+
+    title: str
+    year: int
+
+
+class GetOnly:
+    """a non-data descriptor that is not callable"""
+
+    def __get__(self, obj, objtype=None):
+        return 1
+
+
+# descriptor objects as they sit in a class body: they have __get__ and no __set__, and cannot be called
+raw_cmeth = A.__dict__["cmeth"]
+lazy_prop = functools.cached_property(func)
 
 
 def genfunc():
